@@ -1,4 +1,4 @@
-\* exhaustive design check, bridge store, repaired code (C01 C04 C07 C08 C14)
+\* generated by mkstorecfg.py - bridge, all fault kinds + gap + restart + reorg (C07 C08)
 CONSTANTS
   Kind = "bridge"
   Fixed = TRUE
@@ -7,7 +7,7 @@ CONSTANTS
   MaxEvents = 2
   MaxLeaves = 5
   MaxOps = 5
-  Faults = {"stmt", "commit", "ctx"}
+  Faults = {"stmt", "ctx", "commit"}
   AllowGap = TRUE
   AllowRestart = TRUE
   AllowReorg = TRUE
